@@ -54,7 +54,7 @@ def ret_expr(ret, recv):
         "cstruct": "Pt { x: s2 as i32, y: s2 * 2, z: (s2 % 251) as u8 }",
         "slice": "{ let this = %s; let n = (s2 %% 5) as usize; log(this.buf.as_ptr() as i64 - this as *const Imp as i64); &this.buf[..n.min(4)] }" % tr,
         "mutslice": "{ let this = %s; let n = (s2 %% 5) as usize; log(this.buf.as_ptr() as i64 - this as *const Imp as i64); &mut this.buf[..n.min(4)] }" % tm,
-        "str": "{ let this = %s; let n = [0usize, 1, 3, 6][(s2 %% 4) as usize]; log(this.tbuf.as_ptr() as i64 - this as *const Imp as i64); std::str::from_utf8(&this.tbuf[..n]).unwrap() }" % tr,
+        "str": "{ let this = %s; let n = [0usize, 1, 3, 4, 7][(s2 %% 5) as usize]; log(this.tbuf.as_ptr() as i64 - this as *const Imp as i64); std::str::from_utf8(&this.tbuf[..n]).unwrap() }" % tr,
         "opt": "if s2 % 2 == 0 { Some(s2 as u64) } else { None }",
         "optnpo": "{ let this = %s; if s2 %% 2 == 0 { log(&this.cell as *const u64 as i64 - this as *const Imp as i64); Some(&this.cell) } else { None } }" % tr,
         "optptr": "if s2 % 2 == 0 { log(1); Some(&self.cell as *const u64 as *const u8) } else { log(0); None }",
@@ -115,7 +115,8 @@ def arg_setup(arg, v):
                 amp, "let post: Vec<i64> = av.iter().map(|&b| b as i64).collect();")
     if arg == "str":
         rng = ["[1..1]", "[..]"][v]
-        return ("let av: String = String::from(\"a\\u{e9}\\u{10348}\"); let sent_d = av%s.bytes().map(|b| b as i64).sum::<i64>() + av%s.len() as i64 * 1000; let sent_addr = av%s.as_ptr() as i64;" % (rng, rng, rng),
+        # (the whole string ends with a NUL character: a &str may contain one anywhere)
+        return ("let av: String = String::from(\"a\\u{e9}\\u{10348}\\0\"); let sent_d = av%s.bytes().map(|b| b as i64).sum::<i64>() + av%s.len() as i64 * 1000; let sent_addr = av%s.as_ptr() as i64;" % (rng, rng, rng),
                 "&av%s" % rng, "let post: Vec<i64> = av.bytes().map(|b| b as i64).collect();")
     if arg == "opt":
         val = ["None", "Some(u64::MAX)"][v]
@@ -362,7 +363,7 @@ pub struct Imp {
 }
 impl Imp {
     pub fn new(s0: i64) -> Self {
-        Imp { magic: 0xFEED, st: Cell::new(s0), buf: [10, 20, 30, 40], tbuf: [0x61, 0xC3, 0xA9, 0xE2, 0x82, 0xAC, 0x7A], cell: 4242 }
+        Imp { magic: 0xFEED, st: Cell::new(s0), buf: [10, 20, 30, 40], tbuf: [0x61, 0xC3, 0xA9, 0x00, 0xE2, 0x82, 0xAC], cell: 4242 }
     }
     pub fn check(&self) {
         if self.magic != 0xFEED {
